@@ -1211,6 +1211,9 @@ def reuse_case(draw, shard, tier):
     case["retune"] = dict(at=draw(st.integers(1, 3)), value=draw(go.uniform(-math.pi, math.pi)),
                           elev=draw(st.sampled_from([0.0, 0.0873, 0.1745])), type=draw(st.sampled_from(["umbra", "penumbra"])),
                           frame=draw(st.sampled_from([None, "EME2000"]))) if draw(st.booleans()) else None
+    if case["retune"]:
+        # make sure a listener with something to change is there
+        case["listeners"][0] = draw(listener_spec(case, ["anomaly", "anomaly", "light", "apside"]))
     return case
 
 
